@@ -29,6 +29,16 @@ func mkIDToken(email string, verified bool, segs int, badB64, badJSON bool) stri
 	return strings.Join(parts[:segs], ".")
 }
 
+// an id_token with a hosted-domain claim
+func mkIDTokenHD(email string, verified *bool, hd string) string {
+	m := M{"email": email, "hd": hd}
+	if verified != nil {
+		m["email_verified"] = *verified
+	}
+	payload, _ := json.Marshal(m)
+	return "eyJhbGciOiJub25lIn0." + base64.RawURLEncoding.EncodeToString(payload) + ".sig"
+}
+
 func afDefaults(s *afStep) {
 	if s.Method == "" {
 		s.Method = "GET"
@@ -104,6 +114,11 @@ func afPrelude() []afCase {
 		signIn("google", &afSign{URI: afCallbackURI, Mangle: "badsig", State: "s"}, "sess", sess(nil), nil),
 		signIn("google", &afSign{URI: afCallbackURI, Mangle: "nosig", State: "s"}, "sess", sess(nil), nil),
 		signIn("google", &afSign{URI: afCallbackURI, Mangle: "wrongsecret", State: "s"}, "sess", sess(nil), nil),
+		signIn("google", &afSign{URI: afCallbackURI, Mangle: "emptykey", State: "s"}, "sess", sess(nil), nil),
+		signIn("okta", &afSign{URI: afCallbackURI, Mangle: "emptykey", State: "s"}, "sess", sess(nil), nil),
+		signIn("google", &afSign{URI: afCallbackURI, Mangle: "keyisuri", State: "s"}, "sess", sess(nil), nil),
+		afStep{Slug: "google", Endpoint: "sign_out", Method: "POST", Sign: &afSign{URI: "https://app.x.io/", In: "form", Mangle: "emptykey"}, Cookie: "sess", Sess: sess(nil)},
+		afStep{Slug: "google", Endpoint: "sign_out", Sign: &afSign{URI: "https://app.x.io/", Mangle: "emptykey"}, Cookie: "sess", Sess: sess(nil)},
 		signIn("google", &afSign{URI: afCallbackURI, Mangle: "sigforother", State: "s"}, "sess", sess(nil), nil),
 		signIn("google", &afSign{URI: afCallbackURI, Mangle: "shift-digit", State: "s"}, "sess", sess(nil), nil),
 		signIn("google", &afSign{URI: afCallbackURI, Mangle: "b64std", State: "s"}, "sess", sess(nil), nil),
@@ -309,6 +324,15 @@ func afPrelude() []afCase {
 	}
 	okOut := afStep{Slug: "okta", Endpoint: "sign_out", Method: "POST", Sign: sgf(), Cookie: "sess", Sess: sess(nil), Revoke: afIdP{Kind: "status", Status: 400, ErrDesc: "The token is invalid or expired"}}
 	outs = append(outs, okOut)
+	// parameters nobody asked for, next to the signed three: the confirmation page is the same page
+	for _, extra := range [][][2]string{{{"x", "1"}}, {{"action", "https://evil.io/"}, {"method", "get"}}, {{"x", "1"}, {"x", "2"}, {"y", "<b>"}}, {{"redirect_uri ", "https://evil.io/"}}, {{"name", "\"><script>1</script>"}}} {
+		g := so("GET", sgq(), "sess", afIdP{Kind: "ok"})
+		g.Query = append(g.Query, extra...)
+		outs = append(outs, g)
+		p := so("POST", sgf(), "sess", afIdP{Kind: "status", Status: 500})
+		p.Form = append(p.Form, extra...)
+		outs = append(outs, p)
+	}
 	// sign out for real, then reuse of the old authenticator cookie
 	outs = append(outs, start("google"), cb("google", nil), afStep{Slug: "google", Endpoint: "sign_out", Method: "POST", Sign: sgf(), Cookie: "jar"},
 		signIn("google", good(), "jar", nil, nil))
@@ -336,7 +360,7 @@ func afPrelude() []afCase {
 		return o
 	}
 	var bc []afStep
-	for _, code := range []string{"genuine", "expired-refresh", "expired-lifetime", "otherkey", "cookiekey", "garbage", ""} {
+	for _, code := range []string{"genuine", "expired-refresh", "expired-lifetime", "otherkey", "cookiekey", "garbage", "", "genuine-respelled", "genuine-trailing-lf"} {
 		code := code
 		bc = append(bc, cred("redeem", "POST", nil, Q("client_id", afProxyID, "client_secret", afProxySecret), nil, func(s *afStep) { s.Code = code }))
 	}
@@ -417,6 +441,28 @@ func afPrelude() []afCase {
 	)
 	out.Roots = []string{".apps.y.io"}
 	cases = append(cases, out)
+	// a deployment that sets Google's hosted domain (a hint for the sign-in page) next to a narrower e-mail rule: the rule is
+	// the rule, and an e-mail Google does not mark as verified is never a session — whatever `hd` says
+	{
+		f, tr := false, true
+		hdTok := func(email string, v *bool, hd string) afIdP {
+			return afIdP{Kind: "ok", Access: "idp-at", RefreshT: "idp-rt", TTL: 600, IDToken: mkIDTokenHD(email, v, hd)}
+		}
+		hd := base(
+			signIn("google", good(), "sess", sess(func(s *afSess) { s.Email = "bob@x.io" }), nil),
+			signIn("google", good(), "sess", sess(nil), nil),
+			start("google"), cb("google", func(s *afStep) { s.Token = hdTok("bob@x.io", &tr, "x.io") }),
+			start("google"), cb("google", func(s *afStep) { s.Token = hdTok("ann@x.io", &tr, "x.io") }),
+			start("google"), cb("google", func(s *afStep) { s.Token = hdTok("ann@x.io", &f, "x.io") }),
+			start("google"), cb("google", func(s *afStep) { s.Token = hdTok("ann@x.io", nil, "x.io") }),
+			start("google"), cb("google", func(s *afStep) { s.Token = hdTok("ann@x.io", &tr, "evil.io") }),
+		)
+		hd.HD, hd.Domains, hd.Addresses = "x.io", nil, []string{"ann@x.io"}
+		cases = append(cases, hd)
+		hd2 := hd
+		hd2.HD = "*"
+		cases = append(cases, hd2)
+	}
 	cases = append(cases, afCase{ConfigCheck: true})
 	// each provider's Redeem, called directly
 	okTok := afIdP{Kind: "ok", Access: "idp-at", RefreshT: "idp-rt", TTL: 600, IDToken: mkIDToken("ann@x.io", true, 3, false, false)}
@@ -540,7 +586,7 @@ func init() {
 					s.Sign.URI = schemes[rng.Intn(len(schemes))] + hosts[rng.Intn(len(hosts))] + paths[rng.Intn(len(paths))]
 				}
 				if s.Sign != nil && rng.Intn(6) == 0 {
-					s.Sign.Mangle = []string{"badsig", "nosig", "wrongsecret", "sigforother", "shift-digit", "b64std"}[rng.Intn(6)]
+					s.Sign.Mangle = []string{"badsig", "nosig", "wrongsecret", "sigforother", "shift-digit", "b64std", "emptykey", "keyisuri"}[rng.Intn(8)]
 				}
 				if s.Sign != nil && rng.Intn(6) == 0 {
 					s.Sign.TsDelta = []int64{-301, -299, -3600, 3600, -1, 0}[rng.Intn(6)]
